@@ -79,6 +79,14 @@ VARIANTS = [
                 (I, "    if via is not None:\n        fn = Via(fn, *via)\n\n    return fn\n\n\ndef _wrap_strip_exponent_final",
                  "    if via is not None:\n        fn = Via(fn, *via)\n\n    _CONSTANT_CACHE[tuple(id(c) for c in constants.values())] = fn\n    return fn\n\n\ndef _wrap_strip_exponent_final")],
          expect=("C13-KEYINJ", "_CONSTANT_CACHE")),
+    dict(name="path and expression caches merged into one table", kind="break",
+         edits=[(I, "_PATH_CACHE = {}\n", "_SHARED_CACHE = {}\n_PATH_CACHE = _SHARED_CACHE\n"),
+                (I, "_CONTRACT_EXPR_CACHE = {}\n", "_CONTRACT_EXPR_CACHE = _SHARED_CACHE\n")],
+         expect=("C13-KEYSPACE", "_SHARED_CACHE")),
+    dict(name="Contractor memoises the backend inferred on its first call", kind="break", file=CT,
+         old="        if backend is None:\n            backend = infer_backend_multi(*arrays)\n",
+         new="        if backend is None:\n            if self.backend is None:\n                self.backend = infer_backend_multi(*arrays)\n            backend = self.backend\n",
+         expect=("C13-STATELESS", "Contractor.__call__")),
     dict(name="twin: key built as nested tuples", kind="twin", file=I,
          old="    return (inputs, output, tuple(size_dict.items()), optimize, kwargs)\n",
          new="    return ((inputs, output), (tuple(size_dict.items()), (optimize, kwargs)))\n"),
